@@ -264,7 +264,9 @@ def stream_roles(ctx):
     fac = step.parent
     if not isinstance(fac, FuncInfo):
         raise AnalysisError('stream: factory not found')
-    sibs = [f for f in ctx.repo.functions.values() if f.parent is fac and f is not step and not isinstance(f.node, ast.Lambda)]
+    # helpers nested in the factory, or module-level helpers of the stream module that take the file as a parameter
+    sibs = [f for f in ctx.repo.functions.values() if f is not step and f is not fac and not isinstance(f.node, ast.Lambda)
+            and (f.parent is fac or (f.parent is None and f.cls is None and f.module is step.module))]
     writers = [f for f in sibs if not f.is_generator and any(isinstance(n, ast.Call) and isinstance(n.func, ast.Attribute)
                                                                and n.func.attr == 'write' for n in own_nodes(f.node))]
     rowgens = [f for f in sibs if f.is_generator and row_loops(f)]
@@ -359,15 +361,20 @@ def checkpoint_replaces(ctx, rule='CKP'):
     rets = [n for n in own_nodes(hf.node) if isinstance(n, ast.Return)]
     p = hf.params[1]
     assigns = [n for n in own_nodes(hf.node) if isinstance(n, ast.Assign) and pseudo(n.targets[0]) == 'self.chain']
-    ok = len(rets) == 1 and _me('[self]', rets[0].value) is not None and len(assigns) == 1 and p in names_in(assigns[0].value) and \
-        any(pseudo(x) == 'self.chain' for x in ast.walk(assigns[0].value))
+    # the new value of self.chain with the locals in between resolved (own = self.chain; self.chain = chain(own, parent))
+    from sa.pathvals import PathValues
+    from sa.paths import Enumerator as _En
+    finals = [PathValues(p_).value('self.chain') for p_ in _En(where=hf.qualname).paths(hf.node.body)]
+    ok = len(rets) == 1 and _me('[self]', rets[0].value) is not None and len(assigns) == 1 and bool(finals) and \
+        all(v is not None and p in names_in(v) and any(pseudo(x) == 'self.chain' for x in ast.walk(v)) for v in finals)
     run.check(ok, rule, hf.where, hf.qualname, 'self.chain = chain(self.chain, parent_chain); return [self]',
               'the links before the checkpoint stay in the parent flow (they run even when the checkpoint exists) or are lost')
     if ok:
         # the update reads self.chain itself: it is applied again every time the parent flow builds its chain.  With
         # itertools.chain the previous value has been exhausted by the run that used it; a list / tuple keeps growing.
         v = assigns[0].value
-        one_shot = isinstance(v, ast.Call) and ctx.res.external_name(v) in ('itertools.chain',)
+        one_shot = isinstance(v, ast.Call) and ctx.res.external_name(v) in ('itertools.chain',) and \
+            all(isinstance(fv, ast.Call) and u(fv.func) in ('itertools.chain', 'chain') for fv in finals)
         run.check(one_shot, rule, where(ctx.repo, assigns[0]), hf.qualname, 'self.chain is absorbed into a one-shot iterator',
                   'the preceding links are appended to a re-iterable container that already holds them: on a second run of the '
                   'same Flow object (retry after a failure, refresh after deleting the checkpoint) every step before the '
